@@ -156,6 +156,7 @@ impl Prop for C06 {
     }
     fn check(b: &Building, ctx: &mut Ctx) -> CheckResult {
         let n = b.n;
+        crate::common::label_long(ctx, b);
         let comps = if b.tags.iter().any(|t| t == "unassignable") {
             match catch(|| b.render().parse::<cteepbd::Components>()) {
                 Err(p) => fail!("panic", "parsing panicked: {}", p),
@@ -190,7 +191,11 @@ impl Prop for C06 {
         for (id, decl) in &m.declared {
             for t in 0..n {
                 let s: f64 = got.iter().filter(|((i, _), _)| i == id).map(|(_, v)| v[t]).sum();
-                ensure!((s - decl[t]).abs() <= 16.0 * EPS32 * decl[t] + 1e-9, "aux_conserved", "system {} step {}: auxiliary energy after assignment {} but {} was declared", id, t, s, decl[t]);
+                // at a step where the system has no output the shares come from annual sums: f32 sums of n
+                // values, whose rounding grows with n (8 760-step series: 2.4e-6 relative was observed)
+                let annual = m.multi.contains(id) && m.expect.iter().filter(|((i, _), _)| i == id).all(|(_, e)| e[t].is_none());
+                let ulps = 16.0 + if annual { n as f64 } else { 0.0 };
+                ensure!((s - decl[t]).abs() <= ulps * EPS32 * decl[t] + 1e-9, "aux_conserved", "system {} step {}: auxiliary energy after assignment {} but {} was declared", id, t, s, decl[t]);
             }
         }
         for ((id, _), _) in &got {
